@@ -60,7 +60,7 @@ def step_sig(rec, names=None):
     if "op" in st:
         sig["op"] = st["op"]["fam"] + "." + st["op"]["type"]
     if st["k"] in ("measure", "povm"):
-        sig["flags"] = ("sep" if st.get("sep") else "") + ("D" if st.get("destr", True) else "N")
+        sig["flags"] = ("sep" if st.get("sep") else "") + ("partial" if st.get("partial") else "") + ("D" if st.get("destr", True) else "N")
     if rec.exc is not None:
         sig["exc"] = rec.exc_type
         sig["frame"] = rec.exc_frame
@@ -639,7 +639,10 @@ def judge_c09(rec):
                 out.append(V("C09", "violated", "custom-destroyed", n, cell=cell, **sig))
         else:
             partner_of_target = w.partner(n) in tg
-            if dead and not (partner_of_target and n in others):
+            if dead and partner_of_target and st.get("partial"):
+                out.append(V("C09", "violated", "partial-ignored", f"measure_POVM(partial=True) on {tg[0]} also destroyed its envelope partner {n}", cell=cell, **sig))
+                gone.append(n)
+            elif dead and not (partner_of_target and n in others):
                 out.append(V("C09", "violated", "bystander-destroyed", f"{n} destroyed (reported={n in others})", cell=cell, **sig))
                 gone.append(n)
             elif dead:
@@ -653,7 +656,7 @@ def judge_c09(rec):
     # sameness across entry points and layouts: whenever a destructively measured Fock/Polarization has a live
     # envelope partner that is not itself a target, the partner's fate (measured+reported, or kept alive) must be
     # the same on every route this run takes
-    if destr and not any(v["status"] == "violated" for v in out):
+    if destr and not st.get("partial") and not any(v["status"] == "violated" for v in out):
         for t in tg:
             pt = w.partner(t)
             if pt and pt in names and pt not in tg and w.kind(t) in ("F", "P"):
@@ -774,7 +777,7 @@ def addressed_set(rec):
             A |= {e + ".f", e + ".p"}
     if st.get("via") == "env" and k in ("measure",) and not st.get("targets"):
         A |= {st["env"] + ".f", st["env"] + ".p"}
-    if k == "povm" and st.get("destr", True):
+    if k == "povm" and st.get("destr", True) and not st.get("partial"):
         # partners may legitimately be measured in destructive mode (C09)
         for t in list(A):
             p = w.partner(t)
